@@ -18,10 +18,17 @@ import (
 
 func main() {
 	r := evid.New("C19", "exploration")
-	nL2 := r.Pick(8, 450)
+	// Scenario 0 is fixed (filter headers lagging, reorganisation above the
+	// filter tip); the others are drawn, about half of them with such steps.
+	nL2 := r.Pick(9, 451)
 	l2scen := func(seed int64, k int, res *l2.Result) {
 		res.Name = fmt.Sprintf("c19-l2-%d", k)
-		l2.RunSubs(l2.SubsPlanFromSeed(seed, k), res)
+		if k == 0 {
+			res.Name = "c19-l2-fixed-lag-reorg"
+			l2.RunSubs(l2.SubsFixedLagReorg(), res)
+			return
+		}
+		l2.RunSubs(l2.SubsPlanWithLagFromSeed(seed, k-1), res)
 	}
 	if l2.IsChild() {
 		l2.RunScenarios(r, nL2, 240*time.Second, l2scen)
